@@ -132,6 +132,12 @@ fn run_write_plan(p: &Value, tr: &mut Tracer) {
     let (script, mut l) = match make_layer(layer) { Some(x) => x, None => { tr.event(json!({"ev": "harness_error", "what": "x224 connect failed"})); return; } };
     tr.event(json!({"ev": "reset", "run": p.get("id"), "layer": layer}));
     for w in p.get("writes").and_then(|x| x.as_array()).cloned().unwrap_or_default() {
+        // {"shutdown": true}: the layer's shutdown() is called between two writes (a no-op on a raw stream; whatever is
+        // handed over afterwards is still owed its frame or an error - never a silent drop)
+        if w.get("shutdown").is_some() {
+            let _ = guarded(|| match &mut l { Layer::Link(x) => x.shutdown(), Layer::Tpkt(x) => x.shutdown(), Layer::X224(x) => x.shutdown() });
+            continue;
+        }
         let payload = if let Some(n) = w.get("len").and_then(|x| x.as_u64()) { pattern(n as usize, w.get("salt").and_then(|x| x.as_u64()).unwrap_or(0) as usize) } else { bytes_of(w.get("payload")) };
         script.set_wsched(wsched_of(&w));
         let base = script.0.borrow().accepted_total;
